@@ -543,8 +543,9 @@ pub enum Case {
     Corpus { name: String },
     /// a generated datum through `map_plutus_datum`
     Datum { datum: Gpd },
-    /// a generated datum as inline datum of output `out` of corpus transaction (src, idx) and appended to its witness datums
-    InOutput { src: String, idx: Option<u16>, out: u16, datum: Gpd },
+    /// a generated datum as inline datum of output `out` of corpus transaction (src, idx) and appended to its witness
+    /// datums; the validity flag of the rebuilt transaction is `valid`
+    InOutput { src: String, idx: Option<u16>, out: u16, valid: bool, datum: Gpd },
 }
 
 fn both_txs(tx: &MultiEraTx, view: &TxView, src: &[u8], obs: &mut Obs, ab: &mut Absorb) -> Result<(), Fail> {
@@ -631,10 +632,10 @@ fn check_inner(c: &Case, obs: &mut Obs, ab: &mut Absorb) -> Result<(), Fail> {
             let b = beta::Mapper::new(NoLedger).map_plutus_datum(&pd);
             cmp_pd(&model, &beta::mpd(&b), "datum", obs, ab)
         }
-        Case::InOutput { src, idx, out, datum } => {
+        Case::InOutput { src, idx, out, valid, datum } => {
             // rebuild the transaction with the datum inline in one output and among the witness datums
             let base = crate::c31::Case {
-                src: src.clone(), idx: *idx, flag: None, dup_inputs: vec![], dup_collateral: vec![],
+                src: src.clone(), idx: *idx, flag: Some(*valid), dup_inputs: vec![], dup_collateral: vec![],
                 collateral_from_inputs: false, collret: crate::c31::CollRet::Keep,
             };
             let Some((tag, plain)) = crate::c31::build(&base) else {
@@ -705,6 +706,7 @@ fn check_inner(c: &Case, obs: &mut Obs, ab: &mut Absorb) -> Result<(), Fail> {
                 Err(e) => pv_fail!("layout-error", "{e}"),
             };
             obs.class("in-output-decoded");
+            obs.class(if *valid { "in-output:valid" } else { "in-output:invalid" });
             obs.nontrivial();
             both_txs(&tx, &view, &bytes, obs, ab)
         }
@@ -717,7 +719,7 @@ pub fn run(s: &Session) {
         with CBOR integers over [-2^64, 2^64-1] (edges of every head width and of the i64 range), tag-2/3 bignums of 0..12 \
         bytes, byte strings up to 80 bytes (chunked above 64), definite/indefinite arrays, maps, constructors 121..127, \
         1280..1400 and 102; each through map_plutus_datum and as inline datum + witness datum of a Babbage/Conway corpus \
-        transaction through map_tx. Non-trivial: corpus blocks with transactions and transactions; generated datums pallas \
+        transaction (validity flag true or false) through map_tx. Non-trivial: corpus blocks with transactions and transactions; generated datums pallas \
         decodes; distinct by case");
     s.assume("Weaker readings taken: inputs compared as sets (the mapper emits the sorted set); a small value that arrives as \
         a tag-2/3 bignum may stay big-integer bytes (only its value is compared); collateral, certificates, mint, scripts and \
@@ -727,17 +729,17 @@ pub fn run(s: &Session) {
     let p = pool::pool(thorough);
     let names = p.names(&["block", "tx"]);
     s.foreach("corpus", names.iter().map(|n| Case::Corpus { name: n.clone() }).collect(), true, |c, o| check(s, c, o));
-    s.forall("generated-datums", s.pick(60_000, 1_500_000), || gpd().prop_map(|datum| Case::Datum { datum }), |c, o| check(s, c, o));
+    s.forall("generated-datums", s.pick(300_000, 6_000_000), || gpd().prop_map(|datum| Case::Datum { datum }), |c, o| check(s, c, o));
     let src: Vec<(String, Option<u16>)> = crate::c31::sources(false).iter().filter(|x| x.2 >= 6).map(|x| (x.0.clone(), x.1)).collect();
-    s.forall("datum-in-output", s.pick(15_000, 300_000), move || {
+    s.forall("datum-in-output", s.pick(60_000, 1_200_000), move || {
         let src = src.clone();
-        (any::<u16>(), any::<u16>(), gpd()).prop_map(move |(sel, out, datum)| {
+        (any::<u16>(), any::<u16>(), prop_oneof![2 => Just(true), 1 => Just(false)], gpd()).prop_map(move |(sel, out, valid, datum)| {
             let (name, idx) = &src[pvkit::pick_idx(sel, src.len())];
-            Case::InOutput { src: name.clone(), idx: *idx, out, datum }
+            Case::InOutput { src: name.clone(), idx: *idx, out, valid, datum }
         })
     }, |c, o| check(s, c, o));
     for c in ["int:cbor-int-in-i64", "int:cbor-int-outside-i64", "int:bignum-in-i64", "int:bignum-outside-i64", "datum:inline",
-        "datum:hash", "datum:witness", "output-with-assets", "datum-decoded", "in-output-decoded", "tx",
+        "datum:hash", "datum:witness", "output-with-assets", "datum-decoded", "in-output-decoded", "in-output:valid", "in-output:invalid", "tx",
         "block:byron", "block:shelley", "block:mary", "block:alonzo", "block:babbage", "block:conway"] {
         s.health(s.class_count(c) > 0, &format!("class {c} never evaluated"));
     }
